@@ -25,6 +25,7 @@
 -/
 import AITB.Model.Num
 import AITB.Model.MDP
+import AITB.Model.Prune
 import AITB.Gen.Constants
 import AITB.Gen.C03Src
 
@@ -239,17 +240,21 @@ def lowerRefV (m : POMDP) (c : Nat → Rat) (j k : Nat) (x : Vec) : Rat :=
 
 def dotV (S : Nat) (x α : Vec) : Rat := dotS S x.get α.get
 
-/-- `findBestAtPoint`: index of the first vector with the largest value at `x` (value ties broken by `veccmp` in the library; the
-    tie-break does not matter to any clause checked here) -/
-def bestAt (S : Nat) (x : Vec) (Γ : Array Vec) : Nat := argmaxTo (Γ.size - 1) (fun i => dotV S x (Γ.getD i #[]))
+/-- `findBestAtPoint(x, begin(Γ), end(Γ))`: highest value at `x`, exact ties broken by `veccmp` (the C12 model of the same function) -/
+def bestAt (_S : Nat) (x : Vec) (Γ : Array Vec) : Nat :=
+  AITB.Prune.findBest (fun v => AITB.Prune.dot x.toList v) (Γ.toList.map Array.toList)
 
 /-- the α-vector `bestConservativeAction` builds for action `a` at belief `b`: per observation the best vector of `Γ` at the
-    successor, or nothing when `checkEqualSmall(prob, 0)` -/
-def conservativeAlpha (m : POMDP) (b : Vec) (Γ : Array Vec) (a : Nat) : Vec :=
+    successor; `skips = true` (the source as found): nothing at all when `checkEqualSmall(prob, 0)`; `skips = false` (repaired):
+    the best vector at the unnormalised successor (any vector of `Γ` when the successor is exactly zero) -/
+def conservativeAlphaOf (skips : Bool) (m : POMDP) (b : Vec) (Γ : Array Vec) (a : Nat) : Vec :=
   let ch : Nat → Nat → Rat := fun o =>
     let nb := bstepV m b a o
-    if checkEqualSmall (mass m.S nb.get) 0 then (fun _ => 0) else (Γ.getD (bestAt m.S nb Γ) #[]).get
+    if skips && checkEqualSmall (mass m.S nb.get) 0 then (fun _ => 0) else (Γ.getD (bestAt m.S nb Γ) #[]).get
   mkVec m.S (backupVec m a ch)
+
+/-- as the source has it now (`Gen.C03Src.consSkips`) -/
+def conservativeAlpha (m : POMDP) (b : Vec) (Γ : Array Vec) (a : Nat) : Vec := conservativeAlphaOf Gen.C03Src.consSkips m b Γ a
 
 /-- `(action, value, alpha)` of `bestConservativeAction` -/
 def bestConservative (m : POMDP) (b : Vec) (Γ : Array Vec) : Nat × Rat × Vec :=
